@@ -28,7 +28,7 @@ V1 == V(<<<<1>>>>, 0, <<>>, <<>>)
 VerAtoms == {x \in MAtoms : OkAtom(x) /\ x.deps = {} /\ x.slot = "" /\ x.repo = ""}
 VerPkgs  == {q \in MPkgs : q.iuse = {} /\ q.use = {} /\ q.slot = "0" /\ q.subslot = "0" /\ q.repo = "r1"}
 \* attribute side: every slot / sub-slot / repository / USE combination, two version constraints
-AttrAtoms == {x \in MAtoms : OkAtom(x) /\ x.pkg = "p" /\ x.ver = V1 /\ x.op \in (IF Size > 1 THEN {"", ">="} ELSE {""})
+AttrAtoms == {x \in MAtoms : OkAtom(x) /\ x.pkg = "p" /\ x.ver = V1 /\ x.op = ""
                               /\ (x.deps # {} \/ x.slot # "" \/ x.repo # "")}
 AttrPkgs  == {q \in MPkgs : q.ver \in (IF Size > 1 THEN {V1, V(<<<<1>>>>, 0, <<>>, <<1>>)} ELSE {V1}) /\ q.use \subseteq q.iuse
                               /\ (Size > 1 \/ (q.slot = "0") = (q.subslot = "0"))}
